@@ -25,6 +25,7 @@ struct State
 
 enum { P_STOP_SAW_INSIDE = 0, P_BODY_AFTER_START, P_EXPECT_RAN, P_STOP_WHILE_RUNNING, P_REDUNDANT_START, P_REDUNDANT_STOP, P_DTOR_WHILE_RUNNING, P_WORKERS_BUSY };
 int blockers_started, blockers_released;
+unsigned long long dtor_invoked_at;
 const char *probe_names[] = {"stop_invoked_while_body_inside", "body_ran_after_start", "expect_progress_executed",
                              "stop_while_running", "redundant_start", "redundant_stop", "destroy_while_running", "every_tasking_thread_held_by_other_work", nullptr};
 const char *fault_names[] = {"spurious_wakeup", "clock_jump", "timed_wait_expired_while_peers_stalled", nullptr};
@@ -34,6 +35,7 @@ void reset()
   memset(&st, 0, sizeof st);
   memset(&plan, 0, sizeof plan);
   blockers_started = blockers_released = 0;
+  dtor_invoked_at = 0;
 }
 
 void do_plan(int tier)
@@ -106,8 +108,8 @@ int classify_stuck(int deadlock, char *cls, size_t n)
     return 1;
   }
   // step cap. With every tasking thread held by other work a task-launched loop never starts, and destroying it
-  // involves no waiting at all; the destructor ran in a fault-free fair phase with a budget of >= 100000 points
-  if (plan.busy_workers && ph == 2 && blockers_started > 0) {
+  // involves no waiting at all; the destructor has run in a fault-free fair phase for >= 100000 points of its own budget
+  if (plan.busy_workers && ph == 2 && blockers_started > 0 && dtor_invoked_at && !st.destroyed && sim_steps() - dtor_invoked_at >= 100000) {
     snprintf(cls, n, "C03:S3:destructor-never-returns");
     return 1;
   }
@@ -166,6 +168,11 @@ void c03_ev(int code)
     if (st.running_wanted)
       sim_probe(P_DTOR_WHILE_RUNNING);
     st.running_wanted = false;
+    if (plan.busy_workers) {
+      // the destructor gets a budget of its own: what the script and the spinning work used up before does not count
+      dtor_invoked_at = sim_steps();
+      sim_set_step_cap(dtor_invoked_at + 150000);
+    }
     break;
   case C03_DTOR_RETURN:
     st.destroyed = true;
